@@ -348,6 +348,43 @@ def list_keys_guard(fn):
     return g.test, fn.body[1:]
 
 
+def require_all_new_src():
+    """_require_all_new of ConfigNode (node.py) and ComposedNode (composed.py), exact-text tables (round 7).  CONVENTIONS: raising is `false`;
+    exceptions=None is the empty list; `p not in exceptions` is `negb (path_in p exceptions)`; the walk is the model's nodes_with_paths with the
+    prefix and include_self passed through (its defaults are read by translate_eval.py)."""
+    def body(fn):
+        return [x for x in fn.body if not (isinstance(x, ast.Expr) and isinstance(x.value, ast.Constant))]
+    sig = ['self', 'path', 'reason', 'exceptions', 'include_self']
+    leaf = find_func('nodes/node.py', ['ConfigNode', 'ayns', '_require_all_new'])
+    comp = find_func('nodes/composed.py', ['ComposedNode', 'ayns', '_require_all_new'])
+    for fn in (leaf, comp):
+        if [a.arg for a in fn.args.args] != sig or [U(d) for d in fn.args.defaults] != ['None', 'True']:
+            raise Unsupported('_require_all_new: signature: ' + U(fn.args))
+    lb = body(leaf)
+    if len(lb) != 2 or U(lb[0]) != 'if not include_self:\n    return':
+        raise Unsupported('ConfigNode._require_all_new: shape')
+    c = lb[1]
+    if not (isinstance(c, ast.If) and U(c.test) == 'not self.ayns.allow_new and (exceptions is None or path not in exceptions)' and not c.orelse
+            and len(c.body) == 1 and isinstance(c.body[0], ast.Raise) and U(c.body[0].exc.func) == 'ValueError'):
+        raise Unsupported('ConfigNode._require_all_new: the test: ' + U(c)[:160])
+    cb = body(comp)
+    if len(cb) != 2 or U(cb[0]) != 'seq = self.ayns.nodes_with_paths(prefix=path, include_self=include_self)':
+        raise Unsupported('ComposedNode._require_all_new: the walk: ' + U(cb[0])[:160])
+    loop = cb[1]
+    if not (isinstance(loop, ast.For) and U(loop.target) == '(p, n)' and U(loop.iter) == 'seq' and not loop.orelse and len(loop.body) == 1):
+        raise Unsupported('ComposedNode._require_all_new: the loop')
+    c = loop.body[0]
+    if not (isinstance(c, ast.If) and U(c.test) == 'not n.ayns.allow_new and (exceptions is None or p not in exceptions)' and not c.orelse
+            and len(c.body) == 1 and isinstance(c.body[0], ast.Raise) and U(c.body[0].exc.func) == 'ValueError'):
+        raise Unsupported('ComposedNode._require_all_new: the test: ' + U(c)[:160])
+    ok = '(fun pn : path * node => negb (andb (negb (allow_new (nflags (snd pn)))) (negb (path_in (fst pn) exceptions))))'
+    return ('Definition require_all_new (n : node) (p : path) (exceptions : list path) (include_self : bool) : bool :=\n'
+            '  match n with\n'
+            f'  | Leaf _ _ _ => if negb include_self then true else {ok} (p, n)\n'
+            f'  | Comp _ _ _ _ => forallb {ok} (nodes_with_paths p n include_self)\n'
+            '  end.')
+
+
 def main(out):
     L = ['(* GENERATED by tools/translate_merge.py from the Python source in the working tree of /repo - do not edit *)',
          'From AY Require Import Model.Merge.', 'Open Scope Z_scope.', 'Module SrcM.',
@@ -381,6 +418,7 @@ def main(out):
     body = sk.block(rest, e)
     L.append('Definition list_merge (super_merge : path -> node -> node -> res (node * who)) (p : path) (s o : node) : res (node * who) :=\n  '
              f'(if (andb {guard} (negb (dict_keys_ok (zlen (children s)) (children o)))) then Err EMerge p else\n  {body}).')
+    L.append(require_all_new_src())
     L.append('End SrcM.')
     text = '\n'.join(L) + '\n'
     old = open(out).read() if os.path.exists(out) else None
